@@ -484,12 +484,12 @@ func OverridesExt(m map[string]*configapi.TargetTypeVersion) nbwire.Ext {
 func GenExts(r *rng.R, spec nbenv.Spec, targets []string, allowNil bool) ([]nbwire.Ext, []string) {
 	var out []nbwire.Ext
 	var tags []string
-	if r.Chance(6, 10) {
+	if r.Chance(13, 20) {
 		return nil, nil
 	}
-	n := r.Range(1, 3)
+	n := r.Range(1, 2)
 	for i := 0; i < n; i++ {
-		switch r.Intn(9) {
+		switch []int{0, 0, 0, 2, 2, 2, 2, 2, 4, 5, 6, 6, 7, 7, 8}[r.Intn(15)] {
 		case 0, 1:
 			out = append(out, StrategyExt(r.Intn(2), r.Intn(2)))
 			tags = append(tags, "ext-strategy")
